@@ -2072,4 +2072,221 @@ def OracleDate.sub_interval_ym_safe (self : Int) (interval : Int) : Prop :=
   (fun (self : Int) => Tr.IntervalYM.negate_safe self) interval ∧
   Tr.OracleDate.add_interval_ym_safe self ((fun (self : Int) => Tr.IntervalYM.negate self) interval)
 
+/-- `date.rs::sub_to_date` (date.rs:554), body sha1 1737fa7cc08a -/
+def sub_to_date (date : Int) (sub_day : Int) : Chk Int :=
+  Tr.Date.sub_days date sub_day
+
+/-- No arithmetic node of `date.rs::sub_to_date` leaves its Rust integer type, no division by zero, no index out of range
+    (path-sensitive; calls contribute the callee's predicate). -/
+def sub_to_date_safe (date : Int) (sub_day : Int) : Prop :=
+  Tr.Date.sub_days_safe date sub_day
+
+/-- `date.rs::current_date` (date.rs:549), body sha1 f7f17e245f29 -/
+def current_date (date : Int) (_sub_day : Int) : Chk Int :=
+  Except.ok date
+
+/-- No arithmetic node of `date.rs::current_date` leaves its Rust integer type, no division by zero, no index out of range
+    (path-sensitive; calls contribute the callee's predicate). -/
+def current_date_safe (date : Int) (_sub_day : Int) : Prop :=
+  True
+
+/-- `date.rs::Trunc for Date::trunc_year` (date.rs:463), body sha1 8042d0203977 -/
+-- inlined helpers: date.rs::DateTime for Date::year
+def Date.trunc_year (self : Int) : Chk Int :=
+  Except.ok (Tr.Date.from_ymd_unchecked ((fun (self : Int) => let t1 : Int × Int × Int := Tr.Date.extract self; let year : Int := t1.1; year) self) 1 1)
+
+/-- No arithmetic node of `date.rs::Trunc for Date::trunc_year` leaves its Rust integer type, no division by zero, no index out of range
+    (path-sensitive; calls contribute the callee's predicate). -/
+def Date.trunc_year_safe (self : Int) : Prop :=
+  (fun (self : Int) => Tr.Date.extract_safe self) self ∧
+  (Tr.Date.from_ymd_unchecked_safe ((fun (self : Int) => let t1 : Int × Int × Int := Tr.Date.extract self; let year : Int := t1.1; year) self) 1 1)
+
+/-- `date.rs::Trunc for Date::trunc_week` (date.rs:493), body sha1 097a9672699e -/
+-- inlined helpers: date.rs::DateTime for Date::year
+def Date.trunc_week (self : Int) : Chk Int :=
+  -- date.rs:494: let trunc_day =
+  let trunc_day : Int :=
+    rrem (Tr.Date.sub_date self (Tr.Date.from_ymd_unchecked ((fun (self : Int) => let t1 : Int × Int × Int := Tr.Date.extract self; let year : Int := t1.1; year) self) 1 1)) 7
+  match Tr.Date.sub_days self trunc_day with
+  | Except.error err => Except.error err
+  | Except.ok r2 =>
+      -- date.rs:496: let res_date = self.sub_days(trunc_day)?;
+      let res_date : Int := r2
+      Except.ok res_date
+
+/-- No arithmetic node of `date.rs::Trunc for Date::trunc_week` leaves its Rust integer type, no division by zero, no index out of range
+    (path-sensitive; calls contribute the callee's predicate). -/
+def Date.trunc_week_safe (self : Int) : Prop :=
+  (fun (self : Int) => Tr.Date.extract_safe self) self ∧
+  (Tr.Date.from_ymd_unchecked_safe ((fun (self : Int) => let t1 : Int × Int × Int := Tr.Date.extract self; let year : Int := t1.1; year) self) 1 1) ∧
+  (Tr.Date.sub_date_safe self (Tr.Date.from_ymd_unchecked ((fun (self : Int) => let t1 : Int × Int × Int := Tr.Date.extract self; let year : Int := t1.1; year) self) 1 1)) ∧
+  let trunc_day : Int :=
+    rrem (Tr.Date.sub_date self (Tr.Date.from_ymd_unchecked ((fun (self : Int) => let t1 : Int × Int × Int := Tr.Date.extract self; let year : Int := t1.1; year) self) 1 1)) 7
+  Tr.Date.sub_days_safe self trunc_day
+
+/-- `date.rs::Trunc for Date::trunc_day` (date.rs:527), body sha1 77e10b773168 -/
+def Date.trunc_day (self : Int) : Chk Int :=
+  Except.ok self
+
+/-- No arithmetic node of `date.rs::Trunc for Date::trunc_day` leaves its Rust integer type, no division by zero, no index out of range
+    (path-sensitive; calls contribute the callee's predicate). -/
+def Date.trunc_day_safe (self : Int) : Prop :=
+  True
+
+/-- `date.rs::Trunc for Date::trunc_hour` (date.rs:538), body sha1 77e10b773168 -/
+def Date.trunc_hour (self : Int) : Chk Int :=
+  Except.ok self
+
+/-- No arithmetic node of `date.rs::Trunc for Date::trunc_hour` leaves its Rust integer type, no division by zero, no index out of range
+    (path-sensitive; calls contribute the callee's predicate). -/
+def Date.trunc_hour_safe (self : Int) : Prop :=
+  True
+
+/-- `date.rs::Trunc for Date::trunc_minute` (date.rs:543), body sha1 77e10b773168 -/
+def Date.trunc_minute (self : Int) : Chk Int :=
+  Except.ok self
+
+/-- No arithmetic node of `date.rs::Trunc for Date::trunc_minute` leaves its Rust integer type, no division by zero, no index out of range
+    (path-sensitive; calls contribute the callee's predicate). -/
+def Date.trunc_minute_safe (self : Int) : Prop :=
+  True
+
+/-- `date.rs::Trunc for Date::trunc_sunday_start_week` (date.rs:532), body sha1 b9658a6798be -/
+def Date.trunc_sunday_start_week (self : Int) : Chk Int :=
+  match Tr.Date.sub_days self (Tr.Date.day_of_week self - 1) with
+  | Except.error err => Except.error err
+  | Except.ok r1 =>
+      -- date.rs:533: let res_date = self.sub_days(self.day_of_week() as i32 - 1)?;
+      let res_date : Int := r1
+      Except.ok res_date
+
+/-- No arithmetic node of `date.rs::Trunc for Date::trunc_sunday_start_week` leaves its Rust integer type, no division by zero, no index out of range
+    (path-sensitive; calls contribute the callee's predicate). -/
+def Date.trunc_sunday_start_week_safe (self : Int) : Prop :=
+  Tr.Date.day_of_week_safe self ∧
+  fitsI32 (Tr.Date.day_of_week self - 1) ∧
+  Tr.Date.sub_days_safe self (Tr.Date.day_of_week self - 1)
+
+/-- `date.rs::Round for Date::round_century` (date.rs:560), body sha1 e210c0b6b268 -/
+-- inlined helpers: date.rs::DateTime for Date::year
+def Date.round_century (self : Int) : Chk Int :=
+  -- date.rs:561: let input_year = self.year().unwrap();
+  let input_year : Int :=
+    (fun (self : Int) => let t1 : Int × Int × Int := Tr.Date.extract self; let year : Int := t1.1; year) self
+  -- date.rs:562: if input_year > DATE_MAX_YEAR - 49 {
+  if input_year > DATE_MAX_YEAR - 49 then
+    -- date.rs:563: return Err(Error::DateOutOfRange);
+    Except.error Err.DateOutOfRange
+  else
+    -- date.rs:566: let mut century = input_year / 100;
+    let century : Int := rdiv input_year 100
+    -- date.rs:567: if input_year % 100 == 0 {
+    let century : Int :=
+      if rrem input_year 100 = 0 then
+        -- date.rs:568: century -= 1;
+        let century : Int := century - 1
+        century
+      else
+        let century : Int :=
+          if rrem input_year 100 > 50 then
+            -- date.rs:570: century += 1;
+            let century : Int := century + 1
+            century
+          else
+            century
+        century
+    -- date.rs:573: let res_year = century * 100 + 1;
+    let res_year : Int := century * 100 + 1
+    Except.ok (Tr.Date.from_ymd_unchecked res_year 1 1)
+
+/-- No arithmetic node of `date.rs::Round for Date::round_century` leaves its Rust integer type, no division by zero, no index out of range
+    (path-sensitive; calls contribute the callee's predicate). -/
+def Date.round_century_safe (self : Int) : Prop :=
+  (fun (self : Int) => Tr.Date.extract_safe self) self ∧
+  let input_year : Int :=
+    (fun (self : Int) => let t1 : Int × Int × Int := Tr.Date.extract self; let year : Int := t1.1; year) self
+  fitsI32 (DATE_MAX_YEAR - 49) ∧
+  (¬ input_year > DATE_MAX_YEAR - 49 →
+    let century : Int := rdiv input_year 100
+    (rrem input_year 100 = 0 → fitsI32 (century - 1)) ∧
+    (¬ rrem input_year 100 = 0 → rrem input_year 100 > 50 → fitsI32 (century + 1)) ∧
+    let century : Int :=
+      if rrem input_year 100 = 0 then
+        -- date.rs:568: century -= 1;
+        let century : Int := century - 1
+        century
+      else
+        let century : Int :=
+          if rrem input_year 100 > 50 then
+            -- date.rs:570: century += 1;
+            let century : Int := century + 1
+            century
+          else
+            century
+        century
+    fitsI32 (century * 100) ∧
+    fitsI32 (century * 100 + 1) ∧
+    let res_year : Int := century * 100 + 1
+    Tr.Date.from_ymd_unchecked_safe res_year 1 1)
+
+/-- `date.rs::Round for Date::round_year` (date.rs:578), body sha1 111354e617d7 -/
+def Date.round_year (self : Int) : Chk Int :=
+  -- date.rs:579: let (mut year, month, _) = self.extract();
+  let year_month : Int × Int × Int := Tr.Date.extract self
+  let year : Int := year_month.1
+  let month : Int := year_month.2.1
+  -- date.rs:580: if month >= 7 {
+  if month ≥ 7 then
+    -- date.rs:581: if year == DATE_MAX_YEAR {
+    if year = DATE_MAX_YEAR then
+      -- date.rs:582: return Err(Error::DateOutOfRange);
+      Except.error Err.DateOutOfRange
+    else
+      -- date.rs:584: year += 1;
+      let year : Int := year + 1
+      Except.ok (Tr.Date.from_ymd_unchecked year 1 1)
+  else
+    Except.ok (Tr.Date.from_ymd_unchecked year 1 1)
+
+/-- No arithmetic node of `date.rs::Round for Date::round_year` leaves its Rust integer type, no division by zero, no index out of range
+    (path-sensitive; calls contribute the callee's predicate). -/
+def Date.round_year_safe (self : Int) : Prop :=
+  Tr.Date.extract_safe self ∧
+  let year_month : Int × Int × Int := Tr.Date.extract self
+  let year : Int := year_month.1
+  let month : Int := year_month.2.1
+  (month ≥ 7 →
+    (¬ year = DATE_MAX_YEAR →
+      fitsI32 (year + 1) ∧
+      let year : Int := year + 1
+      Tr.Date.from_ymd_unchecked_safe year 1 1)) ∧
+  (¬ month ≥ 7 → Tr.Date.from_ymd_unchecked_safe year 1 1)
+
+/-- `date.rs::Round for Date::round_day` (date.rs:677), body sha1 77e10b773168 -/
+def Date.round_day (self : Int) : Chk Int :=
+  Except.ok self
+
+/-- No arithmetic node of `date.rs::Round for Date::round_day` leaves its Rust integer type, no division by zero, no index out of range
+    (path-sensitive; calls contribute the callee's predicate). -/
+def Date.round_day_safe (self : Int) : Prop :=
+  True
+
+/-- `date.rs::Round for Date::round_hour` (date.rs:700), body sha1 77e10b773168 -/
+def Date.round_hour (self : Int) : Chk Int :=
+  Except.ok self
+
+/-- No arithmetic node of `date.rs::Round for Date::round_hour` leaves its Rust integer type, no division by zero, no index out of range
+    (path-sensitive; calls contribute the callee's predicate). -/
+def Date.round_hour_safe (self : Int) : Prop :=
+  True
+
+/-- `date.rs::Round for Date::round_minute` (date.rs:705), body sha1 77e10b773168 -/
+def Date.round_minute (self : Int) : Chk Int :=
+  Except.ok self
+
+/-- No arithmetic node of `date.rs::Round for Date::round_minute` leaves its Rust integer type, no division by zero, no index out of range
+    (path-sensitive; calls contribute the callee's predicate). -/
+def Date.round_minute_safe (self : Int) : Prop :=
+  True
+
 end SqlDt.Tr
